@@ -27,6 +27,57 @@ def tree_with_links(ctx):
     return t
 
 
+KCODE = {"File": 0, "Dir": 1, "Symlink": 2}
+
+
+def guard_correspondence(ctx, cases, res):
+    """Valid.guard_links on the stitched listing of the interrupted version vs what restore created and reported."""
+    from .. import common
+    from ..common import gallina_str, gallina_list
+    rows, meta = [], []
+    for c in cases:
+        r = res.get(c["id"])
+        if not c.get("stitched") or r is None:
+            continue
+        ls, rs, dafter = r[-6], r[-3], r[-1]
+        if ls.get("result") != "ok" or rs.get("result") != "ok" or not dafter.get("tree"):
+            continue
+        ents = [(e["apath"], KCODE.get(e["kind"], 3)) for e in ls["value"]]
+        created = sorted((p for p, _ in gen.tree_paths(dafter["tree"])), key=gen.apath_key)
+        nerr = len(rs.get("monitor_errors") or [])
+        rows.append("(" + gallina_list(["(" + gallina_str(p) + "," + str(k) + ")" for p, k in ents]) + ", "
+                    + gallina_list([gallina_str(p) for p in created]) + ", " + str(nerr) + ")")
+        meta.append((c, ents, created, nerr))
+    if not rows:
+        return
+    body = ("From CV Require Import Base.Str Apath Entry Valid Corr.Run Corr.Trace.\nLocal Open Scope N_scope.\n"
+            "Definition mk (p : str) (k : N) : entry := {| e_apath := p; e_kind := (if N.eqb k 0 then KFile else if N.eqb k 1 then KDir else "
+            "if N.eqb k 2 then KSymlink else KUnknown); e_mtime := 0%Z; e_nanos := 0; e_mode := 420; e_user := None; e_group := None; "
+            "e_addrs := []; e_target := None |}.\n"
+            "Definition one (c : list (str * N) * list str * N) : N := let '(es, created, nerr) := c in "
+            "let g := guard_links (map (fun p => mk (fst p) (snd p)) es) in "
+            "if list_eqb str_eqb (map e_apath (fst g)) created then (if N.eqb (snd g) nerr then 0 else 2) else 1.\n"
+            "Definition cs : list (list (str * N) * list str * N) := " + gallina_list(rows) + ".\n"
+            "Eval vm_compute in map one cs.\n")
+    ok, txt = common.coq_eval("C16_guard", body, 1200)
+    blocks = common.parse_eval_blocks(txt)
+    if not ok or not blocks:
+        ctx.corr_fail("L2", "guard_links evaluation failed: " + txt[-500:], {})
+        return
+    nums = common.parse_nums(blocks[0].split("%")[0].split(":")[0])
+    agreed = 0
+    refused = 0
+    for (c, ents, created, nerr), code in zip(meta, nums):
+        if code == 0:
+            agreed += 1
+            refused += 1 if nerr else 0
+        else:
+            ctx.corr_fail("L2", f"Valid.guard_links and restore differ on the stitched listing {[p for p, _ in ents]!r}: restore created {created!r} "
+                                f"with {nerr} errors (code {code}: 1 = created set differs, 2 = error count differs)", {"steps": c["steps"]})
+    ctx.layer("L2-guard-links", agreed, len(meta))
+    ctx.dist("guard_cases_with_refused_entries", refused)
+
+
 def run(ctx):
     quick = ctx.tier == "quick"
     ctx.cov["rule"] = ("trees with symlinks aimed at sentinel files and directories beside the destination (relative upward, absolute into the "
@@ -67,6 +118,7 @@ def run(ctx):
                      {"op": "backup", "opts": {"meph": 2, "mbs": 8, "sfc": 4}},
                      {"op": "mktree", "path": "src", "tree": t1},
                      {"op": "backup", "opts": o2, "plan": {"crash": k}},
+                     {"op": "list", "band": 1},
                      {"op": "snap", "path": "outside"}, {"op": "snap", "path": "dest"},
                      {"op": "restore", "band": 1, "dest": "dest"},
                      {"op": "snap", "path": "outside"}, {"op": "snap", "path": "dest"}]
@@ -102,6 +154,7 @@ def run(ctx):
         if any("outside" in t or t.startswith("..") for t in links):
             ctx.nontrivial(json.dumps([c["destkind"], sorted(links), c.get("stitched", False)]))
         ctx.dist("dest_" + c["destkind"] + ("_stitched" if c.get("stitched") else ""))
+    guard_correspondence(ctx, cases, res)
     if cases:
         ctx.sample({"link_targets": sorted({n["target"] for _, n in gen.tree_paths(cases[0]["tree"]) if n["k"] == "l"})})
     ctx.assumptions += ["kernel path resolution and metadata semantics are observed on this machine, not modelled; runs as root (so absolute targets are confined to the sandbox by construction)"]
